@@ -56,11 +56,22 @@ def gen_plan(verif_seed, run, vle_full_every=10):
             op = hist.g_fit(o, M)
         elif r < 0.84:
             op = hist.g_fit_vle(o, M, hist.VLE_ALGS if o.random() < 0.3 else None)
-        elif r < 0.94:
+        elif r < 0.90:
             op = hist.g_fn_op(o, M)
+        elif r < 0.95:
+            # the non-ideal models fit internally (find_best_fit on the data of a curve set) and
+            # post-process the fitted functions: fits before and after must not notice
+            op = hist.g_nonideal_process(o, M) if o.random() < 0.6 else hist.g_nonideal_curve(o, M)
+            if op is not None and op["args"].get("number_of_steps", 0) > 3:
+                op["args"]["number_of_steps"] = 3
         else:
-            op = hist.g_measurements_from(o, M) if o.random() < 0.6 else {
-                "fn": "measurements_add", "args": {"left": ref("measurements", o.randrange(len(meas))), "right": ref("measurements", o.randrange(len(meas)))}}
+            q = o.random()
+            if q < 0.4:
+                op = hist.g_measurements_from(o, M)
+            elif q < 0.7:
+                op = hist.g_pool_measurements(o, M)
+            else:
+                op = {"fn": "measurements_add", "args": {"left": ref("measurements", o.randrange(len(meas))), "right": ref("measurements", o.randrange(len(meas)))}}
         if op is None:
             continue
         if op["fn"] in ("fit", "find_best_fit"):
